@@ -270,7 +270,7 @@ def roundtrip_obligations(prog, rep, with_code=True):
     if with_code:
         emitrules.check_display(prog, rep)
         for which in ('core', 'dispatch', 'unicode', 'transform', 'private'):
-            parserules.check(prog, rep, which)
+            parserules.check(prog, rep, which, selfread=True)
     return n
 
 
